@@ -30,10 +30,12 @@ let () =
                       | _ -> failwith "view") vs }
             | _ -> failwith "snap") (Sexp.field_exn "snaps" items) in
         let hung = (match Sexp.field "hung" items with Some [Sexp.A "1"] -> true | _ -> false) in
+        let behind = (match Sexp.field "behind" items with Some (n :: _) -> int_of_sx n | _ -> 0) in
         let expected = (match Sexp.field "expected" items with Some [n] -> int_of_sx n | _ -> 0) in
         let h = { h_batches = bs; h_snaps = sn } in
         let ok = check_hist h in
         let kinds = (if ok then [] else ["spec:history"]) @ (if hung then ["spec:call-did-not-return"] else [])
+                    @ (if behind > 0 then ["spec:fresh-snapshot-behind-get"] else [])
                     @ (if (not hung) && List.length bs <> expected then ["spec:batch-failed"] else []) in
         (* the final snapshots (taken after every writer finished) must show every batch *)
         let nt = if List.length sn >= 2 && List.length bs >= 4 then 1 else 0 in
